@@ -643,12 +643,106 @@ def rule_r5(prog, res):
                         sorted(a_int), sorted(svc_names)))
 
 
+# ------------------------------------------------------------------- R6
+def rule_r6(prog, res):
+    res.rule('R6', 'method tables are keyed by unique identities: the '
+             'attribute name in a service, module + owner + name in the '
+             'interface, and the descriptor\'s public name on the HTTP path')
+    sm = prog.cls('spyne.service:ServiceMeta')
+    f = sm.methods.get('__init__')
+    if f is None:
+        raise AnalysisError('ServiceMeta.__init__', 'not found')
+    n = 0
+    for a in walk_no_defs(f.node):
+        if isinstance(a, ast.Assign) and len(a.targets) == 1 and isinstance(
+                a.targets[0], ast.Subscript) and unparse(
+                a.targets[0].value).endswith('public_methods'):
+            n += 1
+            key = a.targets[0].slice
+            loop = None
+            for l_ in ancestors(a):
+                if isinstance(l_, ast.For):
+                    loop = l_
+                    break
+            loopkeys = set()
+            if loop is not None and 'items' in unparse(loop.iter) and \
+                    isinstance(loop.target, ast.Tuple) and loop.target.elts:
+                k0 = loop.target.elts[0]
+                if isinstance(k0, ast.Name):
+                    loopkeys.add(k0.id)
+            ok = isinstance(key, ast.Name) and key.id in loopkeys
+            where = '%s:%d' % (f.module.relpath, a.lineno)
+            res.ob('R6', where, 'ServiceMeta: public_methods[%s] (loop key '
+                   '%s)' % (unparse(key), sorted(loopkeys)),
+                   'ok' if ok else 'VIOLATED')
+            if not ok:
+                res.finding('R6', 'ServiceMeta.__init__|public-methods-key|%s'
+                            % unparse(key), where, 'the per-service method '
+                            'table is keyed by %s instead of the attribute '
+                            'name it iterates over: two functions of one '
+                            'service that answer to the same public name '
+                            'overwrite each other silently, and the request '
+                            'name routes to the last one defined instead of '
+                            'being rejected at construction' % unparse(key))
+    res.floor('R6', 'stores into public_methods', n, 1)
+    md = prog.cls('spyne.descriptor:MethodDescriptor')
+    gk = md.methods.get('gen_interface_key')
+    k = 0
+    for r in walk_no_defs(gk.node):
+        if not (isinstance(r, ast.Return) and isinstance(r.value, ast.Call)
+                and call_name(r.value) == 'format'):
+            continue
+        g = flatten_guards(guards_at(r, stop=gk.node))
+        if not any(pol and 'ServiceBaseBase' in unparse(e) for e, pol in g):
+            continue
+        k += 1
+        comp = r.value.args
+        ok = bool(comp) and unparse(comp[0]) == 'cls.__module__'
+        where = '%s:%d' % (gk.module.relpath, r.lineno)
+        res.ob('R6', where, 'gen_interface_key (services): components %s' %
+               [unparse(c)[:30] for c in comp], 'ok' if ok else 'VIOLATED')
+        if not ok:
+            res.finding('R6', 'MethodDescriptor.gen_interface_key|module|%s' %
+                        (unparse(comp[0])[:40] if comp else '-'), where,
+                        'the interface key of a service method takes its '
+                        'module part from %s, not from cls.__module__: '
+                        'same-named services of different modules collapse '
+                        'onto one key, process_method silently drops the '
+                        'second, and the function that answers depends on '
+                        'the order of the services list' % (
+                            unparse(comp[0])[:40] if comp else '-'))
+    res.floor('R6', 'service branch of gen_interface_key', k, 1)
+    hb = prog.cls('spyne.server.http:HttpBase')
+    mp = hb.methods.get('match_pattern')
+    j = 0
+    for a in walk_no_defs(mp.node):
+        if isinstance(a, ast.Assign) and any(
+                isinstance(t, ast.Attribute) and
+                t.attr == 'method_request_string' for t in a.targets):
+            j += 1
+            v = a.value
+            ok = isinstance(v, ast.Attribute) and v.attr == 'name'
+            where = '%s:%d' % (mp.module.relpath, a.lineno)
+            res.ob('R6', where, 'match_pattern routes to %s' % unparse(v),
+                   'ok' if ok else 'VIOLATED')
+            if not ok:
+                res.finding('R6', 'HttpBase.match_pattern|route-name|%s' %
+                            unparse(v), where, 'a matched HTTP pattern '
+                            'routes to %s, but the routing table is keyed by '
+                            'the descriptor\'s public name (method.name in '
+                            'Interface.process_method): methods with a custom '
+                            'public name answer 404 or another function '
+                            'runs' % unparse(v))
+    res.floor('R6', 'routing assignments in match_pattern', j, 1)
+
+
 def run(prog, res, tier):
     res.run_rule(rule_r1, prog, res, tier)
     res.run_rule(rule_r2, prog, res)
     res.run_rule(rule_r3, prog, res)
     res.run_rule(rule_r4, prog, res)
     res.run_rule(rule_r5, prog, res)
+    res.run_rule(rule_r6, prog, res)
 
 
 _P = 'spyne/protocol/_base.py'
@@ -659,6 +753,21 @@ _W = 'spyne/server/wsgi.py'
 _X = 'spyne/protocol/xml.py'
 
 MUTANTS = [
+    Mutant('public-methods-by-public-name', 'R6', 'fire', 'spyne/service.py',
+           in_func('ServiceMeta.__init__',
+                   "self.public_methods[k] = descriptor",
+                   "self.public_methods[descriptor.name] = descriptor"),
+           'public-methods-key'),
+    Mutant('interface-key-coarse-module', 'R6', 'fire', 'spyne/descriptor.py',
+           in_func('MethodDescriptor.gen_interface_key',
+                   "return u'{}.{}.{}'.format(cls.__module__,",
+                   "return u'{}.{}.{}'.format(self._get_class_module_name("
+                   "cls),"), 'module'),
+    Mutant('pattern-routes-operation-name', 'R6', 'fire', _H,
+           in_func('HttpBase.match_pattern',
+                   "ctx.method_request_string = d.name",
+                   "ctx.method_request_string = d.operation_name"),
+           'route-name'),
     Mutant('internal-key-by-class-name', 'R5', 'fire', 'spyne/service.py',
            in_func('ServiceBaseBase.get_internal_key',
                    "cls.get_service_name()", "cls.get_service_class_name()"),
